@@ -463,6 +463,39 @@ def rule_orderins(ctx) -> None:
             if len(e.generators) == 1:
                 return nan_free(e.generators[0].iter, at, depth + 1)
             return False
+        if isinstance(e, ast.Call) and isinstance(e.func, ast.Attribute) and e.func.attr in ("items", "values") and isinstance(e.func.value, ast.Name) and depth < 5:
+            # a map filled inside loops over NaN-free sequences, with values taken from the loop's own elements
+            D = e.func.value.id
+            fills = []
+            for x in walk_no_defs(fn.node):
+                if isinstance(x, ast.For) and any(
+                        (isinstance(y, ast.Call) and isinstance(y.func, ast.Attribute) and y.func.attr in ("setdefault", "update", "__setitem__") and src(y.func.value) == D)
+                        or (isinstance(y, (ast.Assign, ast.AugAssign)) and any(isinstance(t, ast.Subscript) and src(t.value) == D for t in (y.targets if isinstance(y, ast.Assign) else [y.target])))
+                        for st in x.body for y in ast.walk(st)):
+                    fills.append(x)
+            ds = [d for d in rd.reaching(D, at) if d.kind != "mutate"]
+            born_empty = bool(ds) and all(d.value is not None and (isinstance(d.value, ast.Dict) and not d.value.keys or isinstance(d.value, ast.Call) and dotted(d.value.func) in ("dict", "OrderedDict") and not d.value.args) for d in ds)
+            if not fills or not born_empty:
+                return False
+            for lp in fills:
+                tn = {y.id for y in ast.walk(lp.target) if isinstance(y, ast.Name)}
+                hn = cfg.node_containing(lp.target)
+                if not hn or not nan_free(lp.iter, hn[0], depth + 1):
+                    return False
+                for st in lp.body:
+                    for y in ast.walk(st):
+                        vals = []
+                        if isinstance(y, ast.Call) and isinstance(y.func, ast.Attribute) and y.func.attr == "setdefault" and src(y.func.value) == D and len(y.args) == 2:
+                            vals.append(y.args[1])
+                        if isinstance(y, ast.Assign) and any(isinstance(t, ast.Subscript) and src(t.value) == D for t in y.targets):
+                            vals.append(y.value)
+                        if isinstance(y, ast.AugAssign) and isinstance(y.target, ast.Subscript) and src(y.target.value) == D:
+                            return False
+                        for v in vals:
+                            free = {z.id for z in ast.walk(v) if isinstance(z, ast.Name)} - {"max", "min", "float", D}
+                            if not free <= tn:
+                                return False
+            return True
         if isinstance(e, ast.Name) and depth < 5:
             ds = [d for d in rd.reaching(e.id, at) if d.kind != "mutate"]
             return bool(ds) and all(d.kind == "assign" and d.value is not None and nan_free(d.value, d.node, depth + 1) for d in ds)
@@ -484,6 +517,7 @@ def rule_orderins(ctx) -> None:
                       f"`{src(c)[:50]}` sorts items that may still carry a NaN score (the `>= threshold` filter comes later): (-nan, id) compares false both ways, so the finite items are left "
                       "mis-ordered depending on where the NaN item was listed, and the top-k / pair-cap prefix taken afterwards is no longer the true top-k")
     ctx.floor("C18.ORDERINS", "score sorts of the observed item list", n_sorts, 1)
+    _keyed_folds(ctx, fn)
     # threshold filter precedes
     filt = [x for x in walk_no_defs(fn.node) if isinstance(x, (ast.ListComp, ast.GeneratorExp)) and any(
         isinstance(c, ast.Compare) and isinstance(c.ops[0], ast.GtE) and "threshold" in src(c.comparators[0]) for g in x.generators for c in g.ifs)]
@@ -513,6 +547,77 @@ def rule_orderins(ctx) -> None:
     capdef = [d for d in ctx.rd(fn).all_defs if d.name in cap_left and d.kind == "assign"]
     ctx.check(bool(capdef) and bool(pc) and all(any(isinstance(y, ast.Name) and y.id in pc for y in ast.walk(d.value)) for d in capdef), "C18.ORDERINS", f"{fn.qual}/pair-cap-init", fn.loc(),
               "cap_left starts at the configured pair cap", "cap_left is not initialised from pair_cap")
+
+
+def _keyed_folds(ctx, fn: Func) -> None:
+    """"insensitive to the order in which items are listed" also when an id is listed twice: a loop over the items AS LISTED
+    (not yet sorted by the total key) that files values under a key must fold duplicates commutatively (max / min / sum of the
+    old and the new value).  `d.setdefault(k, v)` keeps whichever was listed first, `d[k] = v` whichever was listed last, and
+    `if k in seen: continue` drops all but the first: each makes the surviving score - and so the top-k and the pair set -
+    depend on the listing order."""
+    cfg = ctx.cfg(fn)
+    rd = ctx.rd(fn)
+    items_p = fn.params[2]
+    n_loops = 0
+
+    def sorted_total(e: ast.AST, at, depth=0) -> bool:
+        if isinstance(e, ast.Call) and dotted(e.func) == "sorted" and _total_score_id_key(kwarg(e, "key")):
+            return True
+        if isinstance(e, ast.Subscript) and isinstance(e.slice, ast.Slice):
+            return sorted_total(e.value, at, depth + 1)
+        if isinstance(e, ast.Call) and dotted(e.func) in ("list", "tuple", "enumerate") and e.args:
+            return sorted_total(e.args[0], at, depth + 1)
+        if isinstance(e, ast.Name) and depth < 5:
+            X = e.id
+            sorts = [m for m in cfg.nodes if m.kind == "stmt" and isinstance(m.ast, ast.Expr) and isinstance(m.ast.value, ast.Call) and isinstance(m.ast.value.func, ast.Attribute)
+                     and m.ast.value.func.attr == "sort" and src(m.ast.value.func.value) == X and _total_score_id_key(kwarg(m.ast.value, "key"))]
+            ds = [d for d in rd.reaching(X, at) if d.kind != "mutate"]
+            if not ds:
+                return False
+            for d in ds:
+                if d.value is not None and d.kind == "assign" and sorted_total(d.value, d.node, depth + 1):
+                    continue
+                if cfg.path([d.node], lambda t: t is at, avoid=lambda t: t in sorts, include_start=False) is not None:
+                    return False
+            return True
+        return False
+
+    def commutative(v: ast.AST, D: str) -> bool:
+        # max(old, new) / min(..) where `old` reads the map being filled
+        return isinstance(v, ast.Call) and dotted(v.func) in ("max", "min") and any(isinstance(z, (ast.Subscript, ast.Call)) and D in src(z) for a in v.args for z in ast.walk(a))
+
+    for lp in [x for x in walk_no_defs(fn.node) if isinstance(x, ast.For)]:
+        hn = cfg.node_containing(lp.target)
+        if not hn:
+            continue
+        if items_p not in (rd.slice([lp.iter], hn[0]).params | ({items_p} if any(isinstance(y, ast.Name) and y.id == items_p for y in ast.walk(lp.iter)) else set())):
+            continue
+        n_loops += 1
+        if sorted_total(lp.iter, hn[0]):
+            continue  # first-wins over a list sorted by (-score, id) is max-wins: the same for every listing
+        tn = {y.id for y in ast.walk(lp.target) if isinstance(y, ast.Name)}
+        bad = None
+        for st in lp.body:
+            for y in ast.walk(st):
+                if isinstance(y, ast.Call) and isinstance(y.func, ast.Attribute) and y.func.attr == "setdefault" and len(y.args) == 2 and any(isinstance(z, ast.Name) and z.id in tn for z in ast.walk(y.args[1])) \
+                        and not isinstance(y.args[1], (ast.List, ast.Dict, ast.Set)):
+                    bad = bad or (y, "keeps the value of whichever duplicate is listed first")
+                if isinstance(y, ast.Assign):
+                    for t in y.targets:
+                        if isinstance(t, ast.Subscript) and isinstance(t.value, ast.Name) and not isinstance(t.slice, ast.Slice) and any(isinstance(z, ast.Name) and z.id in tn for z in ast.walk(t.slice)) \
+                                and any(isinstance(z, ast.Name) and z.id in tn for z in ast.walk(y.value)) and not commutative(y.value, t.value.id) and rd.is_local(t.value.id):
+                            # guarded `if k not in d:` = first wins; unguarded = last wins; both depend on the listing
+                            bad = bad or (y, "keeps the value of whichever duplicate is listed last (or first, under a `not in` guard)")
+                if isinstance(y, ast.If) and any(isinstance(z, ast.Continue) for z in y.body) and isinstance(y.test, ast.Compare) and len(y.test.ops) == 1 and isinstance(y.test.ops[0], ast.In) \
+                        and any(isinstance(z, ast.Name) and z.id in tn for z in ast.walk(y.test.left)):
+                    seen = src(y.test.comparators[0])
+                    if any(isinstance(z, ast.Call) and isinstance(z.func, ast.Attribute) and z.func.attr in ("add", "append") and src(z.func.value) == seen for s2 in lp.body for z in ast.walk(s2)):
+                        bad = bad or (y, "drops every duplicate but the one listed first")
+        ctx.check(bad is None, "C18.ORDERINS", ctx.okey(f"{fn.qual}/duplicates-folded-commutatively"), fn.loc(bad[0] if bad else lp),
+                  "the loop over the listed items files nothing under a key by first-wins / last-wins",
+                  (f"`{src(bad[0])[:60]}` {bad[1]}, in a loop over the items as listed (not yet sorted by (-score, id)): when an id is listed twice with different scores the surviving score - and with it "
+                   "the top-k and the pairs updated - depends on the order of the listing") if bad else "")
+    ctx.floor("C18.ORDERINS", "loops over the listed items", n_loops, 1)
 
 
 def _mutations(fn: Func) -> List[Tuple[str, ast.AST]]:
